@@ -11,10 +11,12 @@ EXTENDS Integers, Sequences, FiniteSets, TLC
 CONSTANTS N,          \* max_threads
           Subs,       \* submitter ids (positive integers)
           TaskOf,     \* TaskOf[s] = sequence of task ids submitted by s, in order
+          Follow,     \* Follow[t] = id of the follow-up task that task t submits to its own pool while it runs (0 = none)
           Lazy, Detached, WaitAll
 
 Range(f) == {f[i] : i \in DOMAIN f}
-Tasks == UNION {Range(TaskOf[s]) : s \in Subs}
+SubTasks == UNION {Range(TaskOf[s]) : s \in Subs}
+Tasks == SubTasks \cup ({Follow[t] : t \in SubTasks} \ {0})
 Workers == 1..N
 
 VARIABLES pcM, mi,              \* main thread: program counter, join index
@@ -129,10 +131,36 @@ WUnlockRun(w) == /\ pcW[w] = "unlock_run"
                  /\ pcW' = [pcW EXCEPT ![w] = "taskbegin"]
                  /\ UNCHANGED <<pcM, mi, pcS, si, cur, queue, shutdown, threads, alive, task, freed>>
 
+FollowOf(w) == IF cur[w] \in SubTasks THEN Follow[cur[w]] ELSE 0
 WTaskBegin(w) == /\ pcW[w] = "taskbegin"
                  /\ task' = [task EXCEPT ![cur[w]] = "running"]
-                 /\ pcW' = [pcW EXCEPT ![w] = "taskend"]
+                 /\ pcW' = [pcW EXCEPT ![w] = IF FollowOf(w) = 0 THEN "taskend" ELSE "n_lock"]
                  /\ UNCHANGED <<pcM, mi, pcS, si, cur, lock, queue, shutdown, threads, running, alive, freed>>
+
+\* the running task submits its follow-up task: m_thpool_add() called by a worker, possibly while the pool is being freed
+\* (the shutdown flag is tested under the mutex: a pool being shut down refuses)
+WNLock(w) == /\ pcW[w] = "n_lock" /\ lock = 0
+             /\ lock' = w
+             /\ IF shutdown # "NO" THEN pcW' = [pcW EXCEPT ![w] = "n_refuse"] /\ UNCHANGED <<queue, task>>
+                ELSE IF Lazy /\ ~(running < Len(threads)) /\ Len(threads) < N
+                  THEN pcW' = [pcW EXCEPT ![w] = "n_create"] /\ UNCHANGED <<queue, task>>
+                  ELSE pcW' = [pcW EXCEPT ![w] = "n_signal"] /\ Enqueue(FollowOf(w))
+             /\ UNCHANGED <<pcM, mi, pcS, si, cur, shutdown, threads, running, alive, freed>>
+WNRefuse(w) == /\ pcW[w] = "n_refuse"
+               /\ lock' = 0 /\ pcW' = [pcW EXCEPT ![w] = "taskend"]
+               /\ UNCHANGED <<pcM, mi, pcS, si, cur, queue, shutdown, threads, running, alive, task, freed>>
+WNCreate(w, w2) == /\ pcW[w] = "n_create" /\ w2 = Len(threads) + 1
+                   /\ threads' = <<w2>> \o threads /\ alive' = alive + 1
+                   /\ pcW' = [pcW EXCEPT ![w2] = "lock", ![w] = "n_signal"]
+                   /\ Enqueue(FollowOf(w))
+                   /\ UNCHANGED <<pcM, mi, pcS, si, cur, lock, shutdown, running, freed>>
+WNSignal(w, w2) == /\ pcW[w] = "n_signal"
+                   /\ IF Sleepers = {} THEN w2 = 0 /\ pcW' = [pcW EXCEPT ![w] = "n_unlock"]
+                                       ELSE w2 \in Sleepers /\ pcW' = [pcW EXCEPT ![w2] = "woken", ![w] = "n_unlock"]
+                   /\ UNCHANGED <<pcM, mi, pcS, si, cur, lock, queue, shutdown, threads, running, alive, task, freed>>
+WNUnlock(w) == /\ pcW[w] = "n_unlock"
+               /\ lock' = 0 /\ pcW' = [pcW EXCEPT ![w] = "taskend"]
+               /\ UNCHANGED <<pcM, mi, pcS, si, cur, queue, shutdown, threads, running, alive, task, freed>>
 
 WTaskEnd(w) == /\ pcW[w] = "taskend"
                /\ task' = [task EXCEPT ![cur[w]] = "done"]
@@ -201,6 +229,9 @@ FMutexDestroy == /\ pcM = "f_mdestroy"
 
 Next == \/ \E w \in Workers : \/ MCreate(w) \/ WLock(w) \/ WCondWait(w) \/ WSpurious(w) \/ WRelock(w) \/ WUnlockRun(w)
                               \/ WTaskBegin(w) \/ WTaskEnd(w) \/ WExitBcast(w) \/ WExitUnlock(w) \/ FJoin(w)
+                              \/ WNLock(w) \/ WNRefuse(w) \/ WNUnlock(w)
+                              \/ \E w2 \in Workers : WNCreate(w, w2)
+                              \/ \E w2 \in Workers \cup {0} : WNSignal(w, w2)
         \/ MStart \/ MJoinSubs
         \/ \E s \in Subs : \/ ALock(s) \/ AUnlock(s)
                            \/ \E w \in Workers : ACreate(s, w)
@@ -214,6 +245,7 @@ Spec == Init /\ [][Next]_vars
 \* be contended, but no thread is starved forever); spurious wake-ups are never needed for progress (no fairness on them)
 WorkerActs(w) == \/ WLock(w) \/ WCondWait(w) \/ WRelock(w) \/ WUnlockRun(w) \/ WTaskBegin(w) \/ WTaskEnd(w)
                  \/ WExitBcast(w) \/ WExitUnlock(w)
+                 \/ WNLock(w) \/ WNRefuse(w) \/ WNUnlock(w) \/ (\E w2 \in Workers : WNCreate(w, w2)) \/ (\E w2 \in Workers \cup {0} : WNSignal(w, w2))
 SubActs(s) == \/ ALock(s) \/ AUnlock(s) \/ (\E w \in Workers : ACreate(s, w)) \/ (\E w \in Workers \cup {0} : ASignal(s, w))
 MainActs == \/ (\E w \in Workers : MCreate(w) \/ FJoin(w)) \/ MStart \/ MJoinSubs
             \/ FLock \/ FBroadcast \/ FUnlock \/ FLock2 \/ FCondWait \/ FRelock \/ FUnlock2 \/ FCondDestroy \/ FMutexDestroy
@@ -235,9 +267,10 @@ ExactlyOnce == [][\A t \in Tasks : /\ (task'[t] = "running" /\ task[t] # "runnin
 \* bounded parallelism
 Parallelism == Cardinality({t \in Tasks : task[t] = "running"}) <= N
 \* what free guarantees when it returns
+\* (a follow-up task refused by a pool that is shutting down was never accepted: it stays "new")
 FreeSemantics == pcM = "returned" =>
-                    /\ \A t \in Tasks : task[t] \in {"done", "discarded"}
-                    /\ (WaitAll => \A t \in Tasks : task[t] = "done")
+                    /\ \A t \in Tasks : task[t] \in {"done", "discarded"} \/ (t \notin SubTasks /\ task[t] = "new")
+                    /\ (WaitAll => \A t \in Tasks : task[t] = "done" \/ (t \notin SubTasks /\ task[t] = "new"))
 \* tasks that had not started when a no-wait free began are never run afterwards: nothing runs after free returned
 NothingRunsAfterFree == [][pcM = "returned" => task' = task]_vars
 \* after free returned no pool thread touches the pool again
@@ -246,7 +279,7 @@ NoTouchAfterFree == freed => \A w \in Created : pcW[w] = "exited"
 DestroyOK == /\ (pcM \in {"f_mdestroy", "returned"} => \A w \in Workers : pcW[w] \notin {"condwait", "sleeping", "woken"})
              /\ (pcM = "returned" => lock = 0)
 \* lock discipline: pool fields are only changed by the lock holder (by construction of the actions); the holder is unique
-LockHolderSane == \A w \in Workers : pcW[w] \in {"condwait", "unlock_run", "exit_bcast", "exit_unlock"} => lock = w
+LockHolderSane == \A w \in Workers : pcW[w] \in {"condwait", "unlock_run", "exit_bcast", "exit_unlock", "n_refuse", "n_create", "n_signal", "n_unlock"} => lock = w
 \* no deadlock: the only states without a successor are complete shutdowns
 Terminal == pcM = "returned" /\ \A w \in Created : pcW[w] = "exited"
 DeadlockFree == (~ENABLED Next) => Terminal
